@@ -93,22 +93,15 @@ Theorem C16_services_any_state_full : forall g os oc st c fs st' c' fs' log err,
       (exists e', l_svcs st' !! id = Some e' /\ se_del e' = true) \/ c_svcs c' !! id = None)).
 Proof. exact svc_any_full. Qed.
 
-(* The local mutators.  "No local change marks an entry in sync that the catalog does not hold"
-   is refuted: re-adding an identical definition over an entry that was never pushed
-   (setServiceStateLocked: InSync = new.IsSame(old.Service), whatever old.InSync was). *)
-Theorem C16_local_add_marks_unsynced_refuted :
-  exists st c id d tok loc st' r,
-    wf_local st /\ honest st c /\ add_service id d tok loc st = (st', r) /\ ~ honest st' c.
-Proof. exact local_add_marks_unsynced_refuted. Qed.
-
-(* It holds when the replaced entry was itself live and in sync, and for every other mutator. *)
-Theorem C16_local_add_service_partial : forall id d tok loc st st' r c,
-  (forall old, l_svcs st !! id = Some old -> se_def old = Some d -> se_sync old = true /\ se_del old = false) ->
+(* The local mutators (every State function that changes an entry): none of them marks in sync
+   an entry the catalog does not hold.  [honest st c]: every live entry marked in sync is held.
+   (Before 9a2a9bf this was false of add_service / add_check: re-adding an identical definition
+   over a never-pushed entry marked it in sync; the model mirrors the repaired code.) *)
+Theorem C16_local_add_service : forall id d tok loc st st' r c,
   add_service id d tok loc st = (st', r) -> honest st c -> honest st' c.
 Proof. exact add_service_honest. Qed.
 
-Theorem C16_local_add_check_partial : forall id d tok loc st st' r c,
-  (forall old, l_chks st !! id = Some old -> ce_def old = Some d -> ce_sync old = true /\ ce_del old = false) ->
+Theorem C16_local_add_check : forall id d tok loc st st' r c,
   add_check id d tok loc st = (st', r) -> honest st c -> honest st' c.
 Proof. exact add_check_honest. Qed.
 
@@ -124,15 +117,30 @@ Theorem C16_local_update_check : forall id status out st c,
   honest st c -> honest (update_check id status out st) c.
 Proof. exact update_check_honest. Qed.
 
-(* A local add over the placeholder updateSyncState leaves for a foreign catalog entry
-   (&ServiceState{Deleted: true}, Service == nil) dereferences nil; such a state is reachable. *)
-Theorem C16_add_over_placeholder_panics : forall id d tok loc st e,
-  l_svcs st !! id = Some e -> se_def e = None -> add_service id d tok loc st = (st, RPanic).
+(* Regression examples (current behaviour) for the two defects repaired in 9a2a9bf: on the state
+   where "web" was registered and its push failed, registering it again leaves it out of sync; a
+   local add over the placeholder of a foreign catalog entry (definition nil) is an ordinary
+   registration (it used to be a nil dereference). *)
+Example C16_readd_stays_unsynced :
+  let st := fst (state_of h_readd [OFail]) in
+  let c := snd (state_of h_readd [OFail]) in
+  honest st c /\
+  (exists e, l_svcs (fst (add_service 1 web 0 false st)) !! 1%N = Some e /\ se_sync e = false /\ se_del e = false) /\
+  c_svcs c !! 1%N = None.
+Proof. exact readd_stays_unsynced. Qed.
+
+Theorem C16_add_over_placeholder : forall id d tok loc st e,
+  l_svcs st !! id = Some e -> se_def e = None ->
+  add_service id d tok loc st =
+  (LS (l_node st) (<[id := SE (Some d) tok false false loc]> (l_svcs st)) (l_chks st), ROk).
 Proof. exact add_service_over_placeholder. Qed.
 
-Theorem C16_placeholder_panic_reachable :
-  snd (do_step g0 (SAddSvc 1 web 0 false []) (fst (state_of h_placeholder [])) (snd (state_of h_placeholder [])) []) = RPanic.
-Proof. exact placeholder_panic_reachable. Qed.
+Example C16_placeholder_add_ok :
+  let st := fst (state_of h_placeholder []) in
+  (exists e, l_svcs st !! 1%N = Some e /\ se_def e = None /\ se_del e = true) /\
+  snd (add_service 1 web 0 false st) = ROk /\
+  (exists e, l_svcs (fst (add_service 1 web 0 false st)) !! 1%N = Some e /\ se_sync e = false /\ se_del e = false).
+Proof. exact placeholder_add_ok. Qed.
 
 (* ---------------------------------------------------------------- retry *)
 
@@ -230,14 +238,14 @@ Print Assumptions C16_no_false_insync.
 Print Assumptions C16_no_false_insync_full.
 Print Assumptions C16_services_any_state.
 Print Assumptions C16_services_any_state_full.
-Print Assumptions C16_local_add_marks_unsynced_refuted.
-Print Assumptions C16_local_add_service_partial.
-Print Assumptions C16_local_add_check_partial.
+Print Assumptions C16_local_add_service.
+Print Assumptions C16_local_add_check.
 Print Assumptions C16_local_remove_service.
 Print Assumptions C16_local_remove_check.
 Print Assumptions C16_local_update_check.
-Print Assumptions C16_add_over_placeholder_panics.
-Print Assumptions C16_placeholder_panic_reachable.
+Print Assumptions C16_readd_stays_unsynced.
+Print Assumptions C16_add_over_placeholder.
+Print Assumptions C16_placeholder_add_ok.
 Print Assumptions C16_retry_marked.
 Print Assumptions C16_retry.
 Print Assumptions C16_retry_partial_sync.
